@@ -165,6 +165,8 @@ impl From<Style> for Font {
 
 impl Doc {
     pub(crate) fn render_roff(&self, mut roff: Roff) -> String {
+        #[cfg(bpaf_verif)]
+        self.verif_capture();
         // sections and subsections are implemented with .SH and .SS
         // control messages and it is easier to provide them right away
         // We also strip styling from them and change sections to all caps
@@ -241,5 +243,17 @@ impl Doc {
         }
 
         roff.render(Apostrophes::Handle)
+    }
+}
+
+#[cfg(bpaf_verif)]
+impl Doc {
+    /// verification hook: the roff renderer applied to this document after a `.TH` line
+    #[doc(hidden)]
+    #[must_use]
+    pub fn verif_render_roff(&self, th: &[&str]) -> String {
+        let mut manpage = Roff::new();
+        manpage.control("TH", th.iter().copied());
+        self.render_roff(manpage)
     }
 }
